@@ -16,6 +16,16 @@ def canon_mir(j):
     s = re.sub(r'"(key|item_key|fkey|impl_key)": "[^"]*"', r'"\1": ""', s)
     return s
 
+def wrapper_is_plain_fma(t):
+    """the wrapper is a single fused multiply-add of its three scalar arguments (parameters, or the components of a tuple
+    parameter), each used exactly once and nothing else; their arrangement is checked where the wrapper is used (R4, R8)"""
+    if not (t[0] == "leaf" and tag(t[1]) == "f" and t[1][1] == "fma"):
+        return False
+    ops = [t[1][2], t[1][3], t[1][4]]
+    def scalar_arg(x):
+        return tag(x) == "param" or (tag(x) == "field" and tag(x[1]) == "param")
+    return all(scalar_arg(x) for x in ops) and len({id(x) for x in ops}) == 3 and len(set(ops)) == 3
+
 def direct_fma_sites(f):
     out = []
     for b in f.live:
@@ -47,9 +57,10 @@ def check_C11(ctx, rep):
             if b is None:
                 continue
             t = H.tree_of(f, b, "prim")
-            ok = t[0] == "leaf" and tag(t[1]) == "f" and t[1][1] == "fma" and t[1][2] is P(0) and t[1][3] is P(1) and t[1][4] is P(2)
+            ok = wrapper_is_plain_fma(t)
             rep.check(ok, "R5", "fma wrapper argument order cfg " + cfg, "fma-args:" + cfg,
-                      "the crate's fma in configuration %s is not provider(x, y, z): %s" % (cfg, vg.show(t)[:200]), where=H.where(b), detail="fma(p0,p1,p2)")
+                      "the crate's fma in configuration %s is not one provider call on its three scalar arguments: %s" % (cfg, vg.show(t)[:200]), where=H.where(b),
+                      detail="provider(x, y, z) on the wrapper's three scalar arguments, each used once (which is which is fixed by the conformance rules at the call sites)")
     # R25 configuration diff
     ia = {b.ident(): b for b in fa.live if b.kind != "Closure"}
     ib = {b.ident(): b for b in fb.live if b.kind != "Closure"}
@@ -138,7 +149,7 @@ def transfer(ctx, rep, covered, prop=None):
             continue
         try:
             t = H.tree_of(fb, b, "prim")
-            ok = t[0] == "leaf" and tag(t[1]) == "f" and t[1][1] == "fma" and t[1][2] is P(0) and t[1][3] is P(1) and t[1][4] is P(2)
+            ok = wrapper_is_plain_fma(t)
         except vg.Unsupported:
             ok = False
         if not ok:
